@@ -124,6 +124,48 @@ pub fn run(ctx: &mut Ctx) {
         }
     }
 
+    // (1b) beyond the exhaustive grid: long vectors (up to 48) and arbitrary offsets
+    let nlong = ctx.n(12000, 250000);
+    for k in 0..nlong as u64 {
+        case += 1;
+        if !ctx.mine(case) {
+            continue;
+        }
+        let mut r = Rng::derive(ctx.seed, &[9, 77, k]);
+        let op = all_ops[r.below(all_ops.len())].clone();
+        if !names.contains(&op) {
+            continue;
+        }
+        let (l_top, l_sec) = (r.below(49), r.below(49));
+        let off: i32 = match r.below(5) {
+            0 => -(l_top as i32),
+            1 => l_sec as i32 - 1,
+            2 => l_sec as i32,
+            _ => r.range(-50, 50) as i32,
+        };
+        let vm = if k % 2 == 0 { Vals::Small } else { Vals::Mixed };
+        let mut s = base_state(&mut r, &names, false);
+        if op.starts_with("BOOL") {
+            if op != "BOOLVECTOR.NOT" {
+                s.bv.insert(0, vec_b(&mut r, l_sec));
+            }
+            s.bv.insert(0, vec_b(&mut r, l_top));
+        } else if op.starts_with("INT") {
+            s.iv.insert(0, vec_i(&mut r, l_sec, vm));
+            s.iv.insert(0, vec_i(&mut r, l_top, vm));
+        } else {
+            s.fv.insert(0, vec_f(&mut r, l_sec, vm));
+            s.fv.insert(0, vec_f(&mut r, l_top, vm));
+        }
+        s.i.insert(0, off);
+        let mut st = build_state(&s);
+        ctx.rec.case_marker(case, &op);
+        ctx.rec.count("steps", 1);
+        ctx.rec.count("long_vector_cases", 1);
+        ctx.rec.cover(&format!("long|{}|{}|{}", op, l_top / 8, l_sec / 8));
+        judged_step("C09", &op, &mut st, &mut is, &cache, &mut ctx.rec, judge, &format!("long: len_top={} len_second={} offset={}", l_top, l_sec, off));
+    }
+
     // (2) every other registered vector instruction: lengths 0..maxlen, index / size operands
     // over {MIN,-1,0..len+1,MAX} (size operands kept small: the envelope is C15's business)
     let vec_names: Vec<String> = names.iter().filter(|n| n.starts_with("BOOLVECTOR.") || n.starts_with("INTVECTOR.") || n.starts_with("FLOATVECTOR.")).cloned().collect();
@@ -133,7 +175,9 @@ pub fn run(ctx: &mut Ctx) {
         }
         ctx.rec.set_add("instructions", name);
         let sizey = name.ends_with(".ONES") || name.ends_with(".ZEROS") || name.ends_with(".RAND") || name.ends_with(".SINE");
-        for len in 0..=maxlen {
+        let mut lens: Vec<usize> = (0..=maxlen).collect();
+        lens.extend([9, 16, 17, 33, 48]);
+        for len in lens {
             let mut ops: Vec<i32> = vec![-1, 0];
             ops.extend(1..=(len as i32 + 1));
             if !sizey {
